@@ -1211,7 +1211,8 @@ func (s *server) ReadModifyWriteRow(ctx context.Context, req *btpb.ReadModifyWri
 		ts := int64(now.TruncateToMilliseconds())
 		var newCell *btpb.Cell
 		var prevVal []byte
-		if len(col.Cells) > 0 {
+		hasPrev := len(col.Cells) > 0
+		if hasPrev {
 			prevVal = col.Cells[0].Value
 
 			// ts is the max of clock or the prev cell's timestamp in case the
@@ -1226,7 +1227,7 @@ func (s *server) ReadModifyWriteRow(ctx context.Context, req *btpb.ReadModifyWri
 			newCell = &btpb.Cell{TimestampMicros: ts, Value: append(prevVal, rule.AppendValue...)}
 		case *btpb.ReadModifyWriteRule_IncrementAmount:
 			var v int64
-			if prevVal != nil {
+			if hasPrev {
 				if len(prevVal) != 8 {
 					return nil, fmt.Errorf("increment on non-64-bit value")
 				}
